@@ -4,7 +4,7 @@ use super::*;
 use russh::model::{self as rm, Step, CHUNK_CAP, EMPTY_STEP, MAX_STEPS};
 use tokio::model;
 
-include!("/verif/harness/netconf/framing_common.rs");
+include!("framing_common.rs");
 
 fn connect() -> Ssh {
     let fut = Ssh::connect("host:830", "user".to_string(), Password("pw".to_string()));
